@@ -92,6 +92,8 @@ fn verif_context_id(context: ExpressionContext) -> u32 {
         ExpressionContext::BinaryLHS => 3,
         ExpressionContext::BinaryLHSExponent => 4,
         ExpressionContext::UnaryOrBinary => 5,
+        #[allow(unreachable_patterns)]
+        _ => 99,
     }
 }
 
